@@ -13,7 +13,6 @@ import (
 	"os/signal"
 	"path/filepath"
 	"runtime/debug"
-	"runtime/pprof"
 	"sort"
 	"strconv"
 	"sync"
@@ -114,12 +113,6 @@ func scratchBase(c *vc.Ctx) string {
 
 func runC05(c *vc.Ctx) error {
 	silenceRepoLogs()
-	if pf := os.Getenv("VERIF_C05_PROF"); pf != "" {
-		if f, err := os.Create(pf); err == nil {
-			pprof.StartCPUProfile(f)
-			defer pprof.StopCPUProfile()
-		}
-	}
 	e := &engine{c: c, mode: c.Tier, exhaustCap: 32 << 10, batch: 48}
 	e.base = scratchBase(c)
 	if e.base != c.Scratch {
@@ -210,10 +203,6 @@ func runC05(c *vc.Ctx) error {
 		if seg == 4096 {
 			nPurge = c.Pick(6, 48)
 		}
-		if v, err := strconv.Atoi(os.Getenv("VERIF_C05_LIMIT")); err == nil && len(idx) > v { // development only
-			idx = idx[:v]
-			nPurge = 0
-		}
 		// Histories are processed in batches so that only the images of one batch
 		// are in memory; big-entry histories are spread over the batches.
 		nb := (len(idx) + e.batch - 1) / e.batch
@@ -233,6 +222,9 @@ func runC05(c *vc.Ctx) error {
 			ni, nc := e.runBatch(specs, bidx, np)
 			nItems += ni
 			nConts += nc
+			if nb > 1 {
+				fmt.Printf("C05: segment size %d: batch %d/%d (%d histories) done, %d reopen executions so far, %.1fs\n", seg, bi+1, nb, len(bidx), c.Ev.Evals(), time.Since(t0).Seconds())
+			}
 			if c.Violations() >= 30 {
 				break
 			}
